@@ -452,3 +452,50 @@ def boolean_eager(tier, seed):
                                             replay=dict(op=name, a=a, b=b), confirmed=True))
                 break
     return res
+
+
+# pinned (clean, noisy) pairs for C14 that the random noise generator cannot produce: noise in places where lxml's remove() takes
+# character data along (text content, allow_text), elements in NO namespace, noise outside the root together with the in-place form
+_NS = 'xmlns="http://www.w3.org/2000/svg"'
+NOISE_PAIRS = {
+    "no_namespace_element": (f'<svg {_NS} viewBox="0 0 10 10"><path d="M1,1 L2,1 L2,2 Z"/></svg>',
+                             f'<svg {_NS} viewBox="0 0 10 10"><path xmlns="" d="M0,0 L5,0 L5,5 Z"/><path d="M1,1 L2,1 L2,2 Z"/><g xmlns=""><rect width="3" height="3"/></g></svg>', {}, "copy"),
+    "title_inside_text": (f'<svg {_NS} viewBox="0 0 10 10"><text x="1" y="5">Hello</text></svg>',
+                          f'<svg {_NS} viewBox="0 0 10 10"><text x="1" y="5"><title>t</title>Hello</text></svg>', dict(allow_text=True), "copy"),
+    "noise_between_characters": (f'<svg {_NS} viewBox="0 0 10 10"><text x="1" y="5">Hello!</text></svg>',
+                                 f'<svg {_NS} xmlns:f="urn:noise" viewBox="0 0 10 10"><text x="1" y="5">He<?pi x?>l<f:x/>l<desc>d</desc>o<symbol/>!</text></svg>', dict(allow_text=True), "copy"),
+    "processing_instruction_in_the_prolog_in_place": (f'<svg {_NS} viewBox="0 0 10 10"><path d="M0,0 L5,0 L5,5 Z"/></svg>',
+                                                      f'<?xml-stylesheet href="a.css"?><svg {_NS} viewBox="0 0 10 10"><path d="M0,0 L5,0 L5,5 Z"/></svg><?trailer x?>', {}, "inplace"),
+}
+
+
+@component("C14", "noise.pinned_pairs", "bounded")
+def noise_pinned_pairs(tier, seed):
+    from picosvg.svg import SVG
+
+    res = ComponentResult()
+    res.bound = f"{len(NOISE_PAIRS)} hand-written (clean, noisy) pairs, converted with the copying or the in-place form"
+    res.rule = "convert(noisy) == convert(clean) byte for byte, and the noisy document does not make the conversion raise; distinct = pairs"
+
+    def conv(doc, kw, mode):
+        s = SVG.fromstring(doc)
+        if mode == "inplace":
+            s.topicosvg(inplace=True, **kw)
+            return s.tostring()
+        return s.topicosvg(**kw).tostring()
+
+    for name, (clean, noisy, kw, mode) in NOISE_PAIRS.items():
+        res.evaluations += 1
+        res.distinct_nontrivial += 1
+        want = conv(clean, kw, mode)
+        try:
+            got = conv(noisy, kw, mode)
+        except Exception as e:  # noqa
+            res.findings.append(Finding(key=f"noise.pinned_pairs:{name}:raises", text=f"{name}: with the ignorable content the conversion raises {type(e).__name__}: {str(e)[:100]} although the clean document converts",
+                                        replay=dict(clean=clean, noisy=noisy, options=kw, form=mode), confirmed=True))
+            continue
+        if got != want:
+            res.findings.append(Finding(key=f"noise.pinned_pairs:{name}:changes-output", text=f"{name}: the ignorable content changes the converted document: {got[-120:]!r} instead of {want[-120:]!r}",
+                                        replay=dict(clean=clean, noisy=noisy, options=kw, form=mode), confirmed=True))
+    res.samples = [dict(pair=k, noisy=v[1][:200]) for k, v in list(NOISE_PAIRS.items())[:2]]
+    return res
